@@ -100,6 +100,15 @@ def oracle(ctx, obs):
                           f"{q['peak_expected']!r} (relative difference {abs(fpm - q['peak_expected']) / q['peak_expected']:.3e} > 1e-3)",
                           {"kind": "peak", "crystal": st["crystal"], "pm_type": st["pm_type"]},
                           {"setup": desc, "observed": fpm, "expected": q["peak_expected"]})
+        # the same with a Simpson rule of >= 128 nodes (the rayon branch of `simpson`): any quadrature of that accuracy must agree
+        fpm130 = abs(cx(s[0]["v130"]))
+        if abs(fpm130 - q["peak_expected"]) > TOL * q["peak_expected"]:
+            ctx.violation("S5", f"|phasematch_fiber_coupling| with Integrator::Simpson {{ divs: 130 }} at perfect phase matching is {fpm130!r}, expected "
+                          f"{q['peak_expected']!r} (relative difference {abs(fpm130 - q['peak_expected']) / q['peak_expected']:.3e} > 1e-3)",
+                          {"kind": "peak", "integrator": "Simpson130", "crystal": st["crystal"], "pm_type": st["pm_type"]},
+                          {"setup": desc, "observed": fpm130, "expected": q["peak_expected"]})
+        ctx.count("walkoff_sign:" + ("negative" if q["tan_rho"] < 0 else "positive" if q["tan_rho"] > 0 else "zero")
+                  + ("/x>0.06" if q["x"] > 0.06 else ""))
         # clause 1: shape
         g0 = abs(gauss_weighted(q["a"], 0.0))
         for smp in s[1:]:
@@ -119,6 +128,12 @@ def oracle(ctx, obs):
                 ctx.violation("S5", f"plane-wave limit: |F|/|F_pm| = {ratio:.6f} but |sinc(Delta k_z L/2)| = {sinc:.6f} at Delta k_z L/2 = {ff:.4f} "
                               f"({st['crystal']} {st['pm_type']}, L = {q['L'] * 1e3:.2f} mm, walk-off x = {q['x']:.2e})",
                               {"kind": "sinc_shape", "crystal": st["crystal"], "pm_type": st["pm_type"]}, rep)
+            ratio130 = abs(cx(smp["v130"])) / fpm130 if fpm130 else float("nan")
+            if abs(ratio130 - general) > TOL:
+                ctx.violation("S5", f"Integrator::Simpson {{ divs: 130 }}: |F|/|F_pm| = {ratio130:.6f}, expected {general:.6f} at Delta k_z L/2 = {ff:.4f}",
+                              {"kind": "shape", "integrator": "Simpson130", "crystal": st["crystal"], "pm_type": st["pm_type"]}, rep)
+            if q["x"] <= WALKOFF_NEGLIGIBLE_X and abs(ratio - sinc) > TOL:
+                pass
             elif abs(ratio - general) > TOL:
                 ctx.violation("S5", f"zero-diffraction limit with walk-off: |F|/|F_pm| = {ratio:.6f}, expected {general:.6f} at Delta k_z L/2 = {ff:.4f} "
                               f"({st['crystal']} {st['pm_type']}, L = {q['L'] * 1e3:.2f} mm, walk-off x = {q['x']:.2e})",
@@ -144,6 +159,21 @@ def simpson_rule_cases(ctx, obs):
     """S4: Model/PMLimit.v Csimpson vs Integrator::Simpson on e^{i(psi + ff z)}"""
     goals, meta = [], {}
     for k, o in enumerate(x for x in obs if x["kind"] == "rule"):
+        if o["divs"] > 60:
+            # the rayon branch (>= 128 nodes): 130-200 term sums are slow to expand in Coq; the same rule (Model/PMLimit.v: simpson) is
+            # evaluated in binary64 here and compared to 1e-12
+            d = o["divs"] + o["divs"] % 2 - 2
+            fa, fb, fpsi, fff = (f64_of_hex(o[t]) for t in ("a", "b", "psi", "ff"))
+            dx = (fb - fa) / d
+            tot = sum((1 if n in (0, d) else 4 if n % 2 else 2) * cmath.exp(1j * (fpsi + fff * (fa + n * dx))) for n in range(d + 1)) * (dx / 3)
+            got = cx(o["v"])
+            ctx.seen(("rule", o["divs"], o["ff"]))
+            if abs(tot - got) > 1e-12:
+                ctx.violation("S4", f"Integrator::Simpson {{ divs: {o['divs']} }} (parallel branch) is not the composite Simpson rule on {d} panels "
+                              f"for e^(i(psi + ff z)): {got!r} vs {tot!r}", {"kind": "model_mismatch", "what": "simpson", "divs": o["divs"]},
+                              {"divs": o["divs"], "a": fa, "b": fb, "psi": fpsi, "ff": fff, "rust": [got.real, got.imag],
+                               "rule": [tot.real, tot.imag]}, found_input=False)
+            continue
         psi, ff, a, b = (coq_hex(o[t]) for t in ("psi", "ff", "a", "b"))
         re_, im_ = coq_hex(o["v"][0]), coq_hex(o["v"][1])
         for part, fn, val in (("re", "cos", re_), ("im", "sin", im_)):
